@@ -688,7 +688,7 @@ def make_programs(ctx, extended=False):
             m.append(("withColumn", "c", ("coalesce", ("col", i0), ("lit", 9))))
         m.append(("select", [(("col", c), c) for c in reversed(names)]))
         m.append(("where", ("isnull", ("col", names[-1]))))
-        if extended:
+        if extended and ctx.tier == "quick":      # (thorough: corpus + random programs carry this shape; the triples stay inside the time envelope)
             # a predicate written as SQL text with a top-level OR (it arrives unparenthesised)
             m.append(("where", ("bin", "Or", ("isnull", ("col", names[-1])),
                                 ("bin", "Eq", ("col", names[0]), ("lit", 2 if cols[names[0]] == "int" else "x"))), "str"))
@@ -711,7 +711,7 @@ def make_programs(ctx, extended=False):
         m.append(("toDF", [n + "_" for n in names]))
         if ints:
             m.append(("fillna", {ints[0]: 0}))
-            if extended and len(ints) > 1:
+            if extended and len(ints) > 1 and ctx.tier == "quick":
                 m.append(("fillna", {ints[0]: 0, ints[1]: 7}, [ints[1]]))
             m.append(("replace", [ints[0]], [(1, 7)]))
             m.append(("unpivot", [c for c in names if c not in ints][:1], ints[:2], "var", "val"))
@@ -787,6 +787,18 @@ def make_programs(ctx, extended=False):
         # an ORDER BY expression written into the SELECT that redefines a column it mentions reads the SELECT's input (known finding)
         [("withColumn", "a", ("bin", "Mul", ("col", "a"), ("lit", -1))),
          ("orderBy", [(("bin", "Add", ("col", "a"), ("lit", 0)), False, None), (("col", "b"), False, None), (("col", "s"), False, None), (("col", "a"), False, None)])],
+        # the same hazard when the orderBy directly follows another orderBy (it replaces it in the still-open SELECT) and the
+        # redefinition is two steps back (found by the thorough tier; raises BinderException on DuckDB: s is a string in the input)
+        [("select", [(("col", "a"), "a"), (("col", "b"), "b"), (("col", "s"), "s"),
+                     (("bin", "Mul", ("bin", "Add", ("lit", 2), ("lit", 3)), ("bin", "Sub", ("col", "a"), ("lit", -1))), "c")]),
+         ("select", [(("bin", "Add", ("col", "a"), ("lit", 3)), "b"), (("col", "a"), "a"), (("col", "s"), "s")]),
+         ("select", [(("col", "s"), "s"), (("col", "a"), "a"), (("col", "b"), "b"), (("isnull", ("col", "a")), "d")]),
+         ("select", [(("col", "s"), "s"), (("col", "a"), "a")]),
+         ("withColumn", "s", ("neg", ("neg", ("col", "a")))),
+         ("orderBy", [(("col", "s"), False, None), (("col", "a"), False, True)]),
+         ("orderBy", [(("bin", "Add", ("col", "s"), ("lit", -1)), False, None), (("col", "a"), False, None)]),
+         ("distinct",),
+         ("withColumn", "a", ("bin", "Lt", ("bin", "Mul", ("col", "a"), ("col", "s")), ("col", "s")))],
         # fillna with a dict value and subset= (strict subset / permutation / superset of the keys): the dict decides
         [("fillna", {"a": 0, "b": 7}, ["b"])],
         [("fillna", {"a": 0, "b": 7}, ["b", "a"]), ("where", ("bin", "Eq", ("col", "a"), ("lit", 0)))],
@@ -843,7 +855,7 @@ def redefined_by(step, cols_before) -> set:
 def signature(steps, flags):
     """shape predicate of a deviation (impl vs spec), used to match known findings"""
     kinds = ["orderBy" if s[0] == "orderByFlags" else s[0] for s in steps]     # the same method, other argument form
-    prev_cols = cols = {"a": "int", "b": "int", "s": "str"}
+    cols = {"a": "int", "b": "int", "s": "str"}
     for st in steps:
         if st[0] == "dropna" and "num_nulls" in cols:
             return "C01/dropna-on-frame-with-column-named-num_nulls"
@@ -852,13 +864,30 @@ def signature(steps, flags):
         if st[0] == "dropna" and st[2] is not None and st[2] < 1 and flags.get("raised") and flags.get("exc") == "RuntimeError":
             return "C01/dropna-thresh-below-1-raises"
         cols = cols_after(st, cols) or cols
+    # root cause first: an orderBy whose key is an EXPRESSION over a column that the still-open SELECT (re)defines.
+    # `redef` = names the open SELECT gives another meaning than its input; the open SELECT is followed with the
+    # implementation's own rule (a new SELECT is opened when the new clause ranks below the last one, or for SELECT
+    # after SELECT); ORDER BY / LIMIT / a second orderBy are written into the same SELECT and keep `redef`.
+    RANK = {"where": 2, "orderBy": 6, "orderByFlags": 6, "limit": 7, "dropna": 1}
     cols = {"a": "int", "b": "int", "s": "str"}
-    for i, st in enumerate(steps):
-        if st[0] == "orderBy" and i > 0:
+    last, redef = 0, set()
+    for st in steps:
+        k = st[0]
+        if k == "orderBy":
             mentioned = set().union(*[rel.e_cols(e) for e, _, _ in st[1] if e[0] != "col"] or [set()])
-            if mentioned & redefined_by(steps[i - 1], prev_cols):
+            if last <= 6 and mentioned & redef:
                 return "C01/orderBy-expression-key-reads-input-of-redefining-select"
-        prev_cols = cols
+        if k in ("unpivot", "agg", "dropDup"):
+            last, redef = 5, set()                     # they end in a fresh pass-through SELECT tagged SELECT
+        else:
+            new = RANK.get(k, 5)
+            if new < last or (new == last == 5):
+                redef = set()                          # the open SELECT is frozen: the new one starts as a pass-through
+            if new == 5:
+                redef = redef | redefined_by(st, cols)
+            if k == "dropna":
+                redef = set()                          # dropna freezes what it finds and leaves a pass-through list
+            last = new
         cols = cols_after(st, cols) or cols
     for i in range(len(kinds) - 1):
         if kinds[i + 1] == "toDF" and "orderBy" in kinds[: i + 1]:
